@@ -19,10 +19,6 @@ mutual
     | s :: rest => by simp only [selL, ISel.keys, keysOf_append, keys_sel1 doc vars v s, keys_selL doc vars v rest]
 end
 
-theorem type?_name {S : Schema} {n : String} {td : TypeDef} (h : S.type? n = some td) : td.name = n := by
-  have := List.find?_some h
-  simpa using this
-
 theorem docTypes_introspect (S : Schema) : docTypes (introspect S) = S.types.map (fullType S) := by
   simp [docTypes, introspect, schemaJ, J.get?, J.lookup, tn]
 
@@ -804,18 +800,6 @@ mutual
     | [] => rfl
     | s :: rest => by simp only [selL, sel1_congr doc vars v v' h s, selL_congr doc vars v v' h rest]
 end
-
-theorem type?_of_mem {S : Schema} (hs : (S.types.map (·.name)).Pairwise (· < ·)) {td : TypeDef} (hm : td ∈ S.types) :
-    S.type? td.name = some td := by
-  unfold Schema.type?
-  cases hf : S.types.find? (fun t => t.name == td.name) with
-  | none =>
-    have := List.find?_eq_none.mp hf td hm
-    simp at this
-  | some td' =>
-    have hm' : td' ∈ S.types := List.mem_of_find?_eq_some hf
-    have hn : td'.name = td.name := by simpa using List.find?_some hf
-    rw [eq_of_key_eq (·.name) S.types hs td' hm' td hm hn]
 
 /-- one entry of `types`: `resolveType` on the definition's name is the projection of its full object -/
 theorem types_elem (S : Schema) (vars : List (String × J)) (hR : reasonsGiven S = true)
